@@ -153,13 +153,14 @@ fn product() -> Vec<Case> {
     v
 }
 
-pub fn run_case(c: &Case) -> Report {
+pub fn run_case(c: &Case, tolerated: &[String], sticky: bool) -> Report {
     let rt = case_runtime();
     let rep = rt.block_on(async {
         let mut rep = Report::new();
         let opts = RunOpts { certificates: true, rows: true, client_verifier: false, signers_by_true_key: true, expect_certificate_on_honest_quorum: true };
         let mut run = Run::boot(&c.cfg, "c16", opts).await;
         let n = c.cfg.n_signers as usize;
+        run.tolerated = tolerated.to_vec();
         for op in &c.ops {
             if run.violation.is_some() {
                 break;
@@ -226,8 +227,10 @@ pub fn run_case(c: &Case) -> Report {
             let s: Vec<String> = shape.into_iter().collect();
             rep.nontrivial(s.join(" + "));
         }
-        if let Some((k, w)) = run.violation.clone() {
-            rep.violation(k, w);
+        if let Some((k, w)) = run.verdict() {
+            if !sticky || run.violation.is_none() || crate::run::sticky_key(&k) {
+                rep.violation(k, w);
+            }
         }
         run.shutdown().await;
         rep
@@ -257,7 +260,8 @@ pub fn run(args: &Args) -> i32 {
         .shrink_iters(150);
     crate::model::warm_up(6);
     let t = check.tier;
-    check.enumerate("label-signature-product", product().into_iter(), true, run_case);
-    check.section("rounds", case_strategy, t.pick(240, 10000), run_case);
+    let tolerated = crate::run::tolerated_keys(&check, args, &["mislabelled-signature-stored*", "panic-on-submission:name-not-registered"]);
+    check.enumerate("label-signature-product", product().into_iter(), true, |c| run_case(c, &tolerated, false));
+    check.section("rounds", case_strategy, t.pick(240, 10000), |c| run_case(c, &tolerated, true));
     check.finish()
 }
